@@ -60,6 +60,47 @@ func genC05(tier string, run int, r *simcore.Rand) *harness.Plan {
 		bulk := Op{K: "bulk", C: r2.Range(1, 4), N: r2.Range(5050, 5600), Seed: r2.Uint64()}
 		ops = append(ops[:at], append([]Op{bulk}, ops[at:]...)...)
 	}
+	// One run in eight: one delivery of a blob with fetch dependencies meets
+	// a read error of the blob source (not a not-exist). If it fails, the
+	// client repeats it later; if it reports success, it counts.
+	if !perm && r2.Bool(0.12) {
+		// a file all of whose parts (transitively) were delivered before it:
+		// every fetch of that delivery is made by the receive itself, and
+		// nothing waits for a file, so no re-index goroutine can run into
+		// the fault instead. (Directories are left out: populateDir logs a
+		// read error of the static set and indexes the directory without
+		// entries - its TODO says so; faults are outside C05's quantifier, so
+		// that is noted in DESIGN.md, not judged.)
+		var ds []int
+		before := map[int]bool{}
+		var partsIn func(i int) bool
+		partsIn = func(i int) bool {
+			for _, pi := range spec.Items[i].Parts {
+				if !before[pi] || !partsIn(pi) {
+					return false
+				}
+			}
+			return true
+		}
+		for i, op := range ops {
+			if op.K != "deliver" {
+				continue
+			}
+			if spec.Items[op.I].K == "file" && !op.Race && partsIn(op.I) {
+				ds = append(ds, i)
+			}
+			if !op.Race {
+				before[op.I] = true
+			}
+		}
+		if len(ds) > 0 {
+			at := ds[r2.Intn(len(ds))]
+			f := ops[at]
+			f.K, f.Race, f.N = "fetchfaultdeliver", false, r2.Range(1, 3)
+			// the ordinary delivery stays, as the client's retry
+			ops = append(ops[:at], append([]Op{f}, ops[at:]...)...)
+		}
+	}
 	p := &harness.Plan{Mode: "seeded", Config: harness.MustJSON(cfg), Bubble: true, Ops: opsJSON(ops)}
 	if perm {
 		p.Mode = "perm"
@@ -512,6 +553,30 @@ func (c *causes) explain(diffs []string, refs map[string]bool, stuck, indexed ma
 				}
 			}
 		}
+		// rows about a blob that itself reached the index before the blob
+		// source, or about the contents of a file that did (rows keyed by
+		// the whole-file digest: EXIF, image size): what the indexer reads
+		// back from the source while indexing such a file - the file's own
+		// schema blob included - may be missing there, and those read errors
+		// are dropped (populateFile logs "error parsing EXIF" and goes on)
+		for i, b := range c.w.b {
+			if !strings.Contains(key, b.RefS) {
+				continue
+			}
+			if c.raced[b.RefS] {
+				got["racesrc"] = true
+			}
+			for j, fb := range c.w.b {
+				if c.w.item(j).K != "file" || !c.raced[fb.RefS] {
+					continue
+				}
+				for _, pi := range c.w.item(j).Parts {
+					if pi == i {
+						got["racesrc"] = true
+					}
+				}
+			}
+		}
 		if len(got) == 0 {
 			return ""
 		}
@@ -530,6 +595,11 @@ func runHistoryC05(rc *harness.RunCtx, p *harness.Plan, cfg *Config, w *world, o
 	s := newSession(rc, w, "main")
 	s.corpusOn = cfg.Corpus == "start"
 	s.stallMiss = time.Duration(cfg.StallMissMs) * time.Millisecond
+	for _, op := range ops {
+		if op.K == "fetchfaultdeliver" {
+			s.srcFaults = true
+		}
+	}
 	s.reseed(simcore.Mix(seed, "seg", "open"))
 	if err := s.open(); err != nil {
 		res.incon = "open: " + err.Error()
@@ -803,6 +873,15 @@ func runHistoryC05(rc *harness.RunCtx, p *harness.Plan, cfg *Config, w *world, o
 			if check(i) {
 				return res
 			}
+		case "fetchfaultdeliver":
+			if _, err := s.fetchFaultDeliver(ops[i], i); err != nil {
+				if report("never-quiesces", "", "", "the index did not settle after a delivery that met a read error of the blob source: "+err.Error(), i) {
+					return res
+				}
+				res.incon = "fetchfaultdeliver: " + err.Error()
+				return res
+			}
+			s.flushRec()
 		}
 	}
 	check(len(ops))
